@@ -439,7 +439,7 @@ def parse_template(path):
     while i < len(lines):
         ln = lines[i]
         st = ln.strip()
-        if st.startswith('//@@ fn ') or st.startswith('//@@ item ') or st.startswith('//@@ macrofn '):
+        if st.startswith('//@@ fn ') or st.startswith('//@@ item ') or st.startswith('//@@ macrofn ') or st.startswith('//@@ closurefn '):
             if buf:
                 out.append(('text', '\n'.join(buf) + '\n')); buf = []
             parts = st[5:].split()
@@ -1165,6 +1165,73 @@ def gen_macrofn(d):
     return text, meta
 
 
+def gen_closurefn(d):
+    """R16 closure lift: `//@@ closurefn <file> <selector> <fn> name=<new fn> cap=<v:T;..> ret=<T>`.
+    The single `move || { BODY }` closure inside <fn> becomes `fn name<generics of fn>(v: &mut T, ..) -> ret where <bounds of fn> { BODY }`:
+    the variables the closure captures by move and mutates become `&mut` parameters; BODY is the repo text, except that an
+    assignment to a captured variable `v = e` is written `*v = e` (one logged rewrite per site)."""
+    rel, selector, name = d.args[0], d.args[1], d.args[2]
+    o = opts(d.args[3:])
+    src, it = locate(rel, 'fn', selector, name, o.get('attr'))
+    log = []
+    sigtext = src[it.start:it.header_end]
+    fn_body = src[it.header_end:it.end]
+    s = sig(lex(fn_body))
+    ci = None
+    for i, tk in enumerate(s):
+        if tk.kind == 'ident' and tk.text == 'move' and i + 3 < len(s) and s[i + 1].text == '|' and s[i + 2].text == '|' and s[i + 3].text == '{':
+            if ci is not None:
+                raise GenError('closurefn %s: more than one `move ||` closure' % name)
+            ci = i
+    if ci is None:
+        raise GenError('lost anchor: `move || {` closure in %s' % name)
+    bo = s[ci + 3].start
+    body = fn_body[bo:find_matching(fn_body, bo)]
+    # generics and where clause of the enclosing fn
+    ss = sig(lex(sigtext))
+    ni = next(i for i, tk in enumerate(ss) if tk.kind == 'ident' and tk.text == name)
+    generics = ''
+    if ss[ni + 1].text == '<':
+        depth = 0
+        for j in range(ni + 1, len(ss)):
+            if ss[j].text == '<': depth += 1
+            elif ss[j].text == '>':
+                depth -= 1
+                if depth == 0:
+                    generics = sigtext[ss[ni + 1].start:ss[j].end]
+                    break
+    wi = next((tk.start for tk in ss if tk.kind == 'ident' and tk.text == 'where'), None)
+    where = sigtext[wi:].rstrip() if wi is not None else ''
+    caps = [c.split(':', 1) for c in o['cap'].split(';')]
+    params = ', '.join('%s: &mut %s' % (n, t.replace('~', ' ')) for n, t in caps)
+    newsig = 'fn %s%s(%s) -> %s\n%s' % (o['name'], generics, params, o['ret'].replace('~', ' '), where)
+    log.append(('R16l', 'move || BODY inside fn %s' % name, 'fn %s(%s) BODY' % (o['name'], params)))
+    # `v = e` -> `*v = e` for captured variables
+    out, last = [], 0
+    toks = sig(lex(body))
+    capnames = {n for n, _ in caps}
+    for i, tk in enumerate(toks):
+        if tk.kind == 'ident' and tk.text in capnames and i + 1 < len(toks) and toks[i + 1].text == '=' \
+                and not (i + 2 < len(toks) and toks[i + 2].text == '=' and toks[i + 2].start == toks[i + 1].end) \
+                and not (i and toks[i - 1].text in ('.', 'let', 'mut', '*')):
+            out.append(body[last:tk.start]); out.append('*' + tk.text); last = tk.end
+            log.append(('R16', tk.text + ' =', '* ' + tk.text + ' ='))
+    out.append(body[last:])
+    body = ''.join(out)
+    body = r0_drop(r0_drop_disabled_cfg(body, log), log)
+    body = apply_rws(body, d, log)
+    body = apply_splices(body, d, log)
+    newsig = r4_result_name(newsig.rstrip(), o.get('res', 'res'), log)
+    contract = d.contract.strip('\n')
+    text = newsig.rstrip() + '\n' + (contract + '\n' if contract.strip() else '') + body + '\n'
+    orig_body = fn_body[bo:find_matching(fn_body, bo)]
+    meta = {'name': o['name'], 'gen_name': o['name'], 'selector': selector, 'file': rel,
+            'line': line_of(src, it.start), 'end_line': line_of(src, it.end),
+            'props': [p for p in o.get('props', '').split(',') if p], 'rules': log, 'r1_sites': sum(1 for r in log if r[0] == 'R1'),
+            'external_body': False, 'stub': False, 'orig': 'fn %s() %s' % (o['name'], orig_body), 'closure': True}
+    return text, meta
+
+
 def gen_item(d):
     rel, kind, name = d.args[0], d.args[1], d.args[2]
     o = opts(d.args[3:])
@@ -1229,7 +1296,7 @@ def erasure_check(gen_text, meta):
         if rule == 'R9s':
             canon = re.sub(r'\bvp_self\b', 'self', canon)
             continue
-        if rule in ('R1', 'R5', 'R8', 'R2', 'R3', 'R7', 'R11', 'R12', 'R13', 'R14'):
+        if rule in ('R1', 'R5', 'R8', 'R2', 'R3', 'R7', 'R11', 'R12', 'R13', 'R14', 'R16'):
             n = strip_ws(new)
             if n and n in canon:
                 canon = canon.replace(n, strip_ws(old), 1)
@@ -1267,6 +1334,8 @@ def generate(unit, outdir=None):
         d = p
         if d.kind == 'macrofn':
             text, meta = gen_macrofn(d)
+        elif d.kind == 'closurefn':
+            text, meta = gen_closurefn(d)
         elif d.kind == 'fn':
             text, meta = gen_fn(d)
         else:
